@@ -74,6 +74,23 @@ def main():
         ok, w = lattice_ok(res, N)
         if not ok:
             return dict(reproduced=True, call='SSA(safe=%s) of %r from %r' % (safe, rxs, x0), observed=w, expected='difference in the reaction lattice')
+    # 3. safe mode in the delay simulators: a reaction whose delayed part hands back a species its immediate part consumed
+    #    (a gene / enzyme that is busy during the delay), with a rate that does not vanish when that species runs out
+    for it in range(SPEC.get('rounds_delay', 12)):
+        shape = rng.choice(['busy-gene', 'dimer'])
+        if shape == 'busy-gene':
+            rx = [(['G'], [], 'general', {'rate': 'kf'}, 'fixed', [], ['G', 'P'], {'delay': rng.uniform(0.3, 1.5)})]
+            x0 = {'G': rng.randint(1, 2), 'P': 0}
+        else:
+            rx = [(['A', 'A'], [], 'hillnegative', {'k': 'kf', 'K': 5.0, 'n': 1, 's1': 'Q'}, 'fixed', [], ['A', 'Q'], {'delay': rng.uniform(0.3, 1.5)})]
+            x0 = {'A': rng.choice([1, 3, 5]), 'Q': 0}
+        M = Model(species=sorted(x0), reactions=rx, parameters=[('kf', rng.uniform(2, 8))], initial_condition_dict=x0)
+        for mode in (dict(delay=True), dict(delay=True, volume=1.0)):
+            py_seed_random(rng.randint(1, 10 ** 6))
+            res = py_simulate_model(T, Model=M, stochastic=True, safe=True, return_dataframe=False, **mode).py_get_result()
+            n += 1
+            if (res < 0).any():
+                return dict(reproduced=True, call='safe delay simulation %r of %r from %r' % (mode, rx, x0), observed=float(res.min()), expected='>= 0')
     return dict(reproduced=False, evaluations=n)
 
 
